@@ -158,27 +158,23 @@ def nat_FI(b):
 
 
 # Norway: modulus 11, weights 5,4,3,2,7,6,5,4,3,2 over the first ten digits; 11 - remainder; 11 -> 0; 10: no valid
-# account number exists.  (Accounts whose 5th and 6th digits are 00: see NO_BAND)
-@spec
-def nat_NO(b):
-    r = wsum(b[0:10], (5, 4, 3, 2, 7, 6, 5, 4, 3, 2)) % 11
-    c = 11 - r
-    return band(c != 10, digit(b[10]) == ite(c == 11, 0, c))
-
-
+# account number exists.  Accounts whose 5th and 6th digits are 00 (the first two of the six-digit account part):
+# the bank identifier is left out of the sum, i.e. only the last four account digits count, with the weights of their
+# positions (5,4,3,2) - this is the reading the library documents by its own test vector (6042 143964 0 is the
+# ordinary case); it could not be re-read from an independent source offline and is recorded as an ASSUMPTION of
+# C06 (evidence), not as an independently confirmed rule.
 @spec
 def no_band(b):
     return band(digit(b[4]) == 0, digit(b[5]) == 0)
 
 
 @spec
-def nat_NO_lower(b):
-    return band(bnot(no_band(b)), nat_NO(b))
-
-
-@spec
-def nat_NO_upper(b):
-    return bor(no_band(b), nat_NO(b))
+def nat_NO(b):
+    full = wsum(b[0:10], (5, 4, 3, 2, 7, 6, 5, 4, 3, 2))
+    short = wsum(b[6:10], (5, 4, 3, 2))
+    r = ite(no_band(b), short, full) % 11
+    c = 11 - r
+    return band(c != 10, digit(b[10]) == ite(c == 11, 0, c))
 
 
 # Poland: modulus 10, weights 3,9,7,1,3,9,7 over bank+branch (7 digits); check = (10 - s mod 10) mod 10
@@ -215,6 +211,7 @@ def nat_IS(b):
 
 EXACT = {"BE": nat_BE, "BA": nat_BA, "ME": nat_ME, "MK": nat_MK, "PT": nat_PT, "RS": nat_RS, "SI": nat_SI,
          "TL": nat_TL, "MR": nat_MR, "TN": nat_TN, "FR": nat_FR, "MC": nat_FR, "ES": nat_ES, "IT": nat_IT,
-         "SM": nat_IT, "FI": nat_FI, "PL": nat_PL, "EE": nat_EE, "CZ": nat_CZ, "SK": nat_CZ, "IS": nat_IS}
-BAND = {"NO": (nat_NO_lower, nat_NO_upper)}
+         "SM": nat_IT, "FI": nat_FI, "PL": nat_PL, "EE": nat_EE, "CZ": nat_CZ, "SK": nat_CZ, "IS": nat_IS,
+         "NO": nat_NO}
+BAND = {}
 COUNTRIES_22 = sorted(list(EXACT) + list(BAND))
